@@ -359,6 +359,9 @@ def coq_bool(line, model_out):
     return None if _is_webp(line) else _mp4["coq_bool"](line, model_out)
 
 
+KNOWN_NAMES = {b"ALPH", b"ANIM", b"ANMF", b"EXIF", b"ICCP", b"VP8 ", b"VP8L", b"VP8X", b"XMP "}
+
+
 def _flip(line):
     t = line.split(" ")
     t[2] = "0" if t[2] == "1" else "1"
@@ -386,8 +389,14 @@ def _webp_oracle(run, pairs):
                 bad.append("without the option: %s (not UnsupportedChunk), with it: %s" % (off, on))
             if on == "ok" and not (off == "ok" or uns):
                 bad.append("accepted with the option, without it: %s" % off)
-            if on == "ok" and g != "true":
-                bad.append("accepted with the option although the grammar (unknown chunks allowed) says %s: a known chunk out of place?" % g)
+            if uns:
+                nm = bytes.fromhex(off.split(":")[1]) if ":" in off else b""
+                if nm in KNOWN_NAMES:
+                    bad.append("UnsupportedChunk reported for the known chunk %r" % nm)
+            # the option made the difference: then it must be the grammar's unknown-chunk clause that made it
+            # (when both settings agree the verdict itself is C06's business, not C14's)
+            if on == "ok" and off != "ok" and g != "true":
+                bad.append("accepted only with the option although the grammar (unknown chunks allowed) says %s: a known chunk out of place?" % g)
         out.append((not bad, "; ".join(bad)))
     return out
 
